@@ -55,11 +55,13 @@ AddDef(c, kind, n) ==
   /\ Put([sc |-> Append(prog.sc, [kind |-> kind, site |-> NSt(prog) + 1]),
           st |-> Append(prog.st, [c |-> c, k |-> k, n |-> n, ch |-> NSc(prog) + 1])])
 
-Next == /\ Weight(prog) < MaxWeight
-        /\ \E c \in {x \in 1..NSc(prog) : x >= LastKey(prog)[1] /\ Cardinality(SitesIn(prog, x)) < MaxPerScope} :
-             \/ \E k \in PosOf(KindS(prog, c)) \cap PosOn, n \in NameChoices(prog) : AddName(c, k, n)
-             \/ \E k \in PosOf(KindS(prog, c)) \cap PosOn \cap ExprPos, kind \in ExprScopeKinds : AddExprScope(c, k, kind)
-             \/ \E kind \in {"function", "class"}, n \in NameChoices(prog) : AddDef(c, kind, n)
+Open == IF Weight(prog) < MaxWeight
+        THEN {x \in 1..NSc(prog) : x >= LastKey(prog)[1] /\ Cardinality(SitesIn(prog, x)) < MaxPerScope} ELSE {}
+DoAddName      == \E c \in Open : \E k \in PosOf(KindS(prog, c)) \cap PosOn, n \in NameChoices(prog) : AddName(c, k, n)
+DoAddExprScope == \E c \in Open : \E k \in PosOf(KindS(prog, c)) \cap PosOn \cap ExprPos, kind \in ExprScopeKinds :
+                    AddExprScope(c, k, kind)
+DoAddDef       == \E c \in Open : \E kind \in {"function", "class"}, n \in NameChoices(prog) : AddDef(c, kind, n)
+Next == DoAddName \/ DoAddExprScope \/ DoAddDef
 
 Spec == Init /\ [][Next]_vars
 
